@@ -36,7 +36,7 @@ mod kmeans_noshrink {
 macro_rules! subs {
     ($( ($name:literal, $m:ident, $quick:expr, $thorough:expr, $chunks:expr) ),* $(,)?) => {
         pub fn child_main(spec: &str) -> ! {
-            driver::child_main(spec, &[ $( ($name, child_entry::<$m::Cfg>) ),* , ("literal", child_entry::<explicit::Cfg>) ])
+            driver::child_main(spec, &[ $( ($name, child_entry::<$m::Cfg>) ),* , ("literal", child_entry::<explicit::Cfg>), ("thresholds", child_entry::<kmeans::Cfg>) ])
         }
         fn all_subs() -> Vec<Box<dyn vengine::SubCheck>> {
             vec![ $(
@@ -53,7 +53,7 @@ macro_rules! subs {
 }
 
 subs![
-    ("kmeans", kmeans_noshrink, 64, 640, 16),
+    ("kmeans", kmeans_noshrink, 80, 800, 16),
     ("cluster", cluster, 120, 1500, 8),
     ("tree_bayes", tree_bayes, 240, 3000, 8),
     ("svm", svm, 80, 1000, 8),
@@ -77,8 +77,24 @@ fn literal_sub() -> Box<dyn vengine::SubCheck> {
     .chunks(4)
 }
 
+fn thresholds_sub() -> Box<dyn vengine::SubCheck> {
+    vengine::enum_sub(
+        "thresholds",
+        |t: Tier| {
+            kmeans::threshold_cases()
+                .into_iter()
+                .enumerate()
+                .map(|(i, est)| Case { est, rep_pool: (i % 6) as u8, children: t.pick(3u8, 6u8) })
+                .collect::<Vec<_>>()
+        },
+        |c: &Case<kmeans::Cfg>, obs: &mut vengine::Obs| judge("thresholds", c, obs),
+    )
+    .chunks(8)
+}
+
 pub fn property() -> Property {
     let mut subs = all_subs();
+    subs.push(thresholds_sub());
     subs.push(literal_sub());
     Property {
         id: "C20",
@@ -103,7 +119,9 @@ pub fn property() -> Property {
             "hash-map backed models (naive Bayes) and decision trees are additionally compared through their serde serialisation with object keys sorted; all other models through their bincode bytes".into(),
             "trusted base: data derivation (SplitMix), digest code, rayon's ThreadPoolBuilder/install, std::process; linfa's Distance implementations are only wrapped (arithmetic untouched)".into(),
             "not generated for liveness reasons (nothing to do with determinism): Tweedie powers 1,2,3 and fits without intercept (the L-BFGS line search does not terminate on some inputs), SVR with the polynomial kernel (10^7 iteration cap), SVM shrinking (panics, property C13)".into(),
-            "decision-tree cases with >= 3 classes or engineered label ties attribute every difference between two runs to the hash-order findings recorded for them (class-level attribution); new non-determinism in tree fitting is searched in the two-class, tie-free class (per-class sample weights 1 + c/1024), where no tie-break and no reordered float sum can legitimately matter".into(),
+            "the six hash-order findings of this check are fixed in /repo, so every tree / naive-Bayes / hierarchical class is enforced; the class-named signatures (nondet:tree:exact-label-tie, ...:hash-ordered-impurity-sum:*) only name the generator class in which a difference was seen".into(),
+            "tree cases use per-class weights 1 + c/1024 (exact f32 totals) or, in half of the cases, real-valued non-dyadic f32 sample weights through with_weights (inexact class totals: any hash-ordered sum over classes shows); isotonic regression gets real-valued weights in every other case".into(),
+            "size-threshold strata: k in {101,128} components (GMM by k-means / random init / builder defaults, K-means Random / ++; 8 fixed cases in every run plus ~1/6 of the random k-means cases; GMM with max 3 EM steps, tolerance 1e6, reg_covar 1e-2, one restart), > 100 hierarchical clusters, n in {2^k-1, 2^k, 2^k+1} for k-means, 65..70 feature columns for decompositions and numeric transformers".into(),
             format!("tree impurity differences are recognised as 'rounding of a reordered f32 sum' only below {:e}", tree_bayes::F32_REORDER_GAP),
             "Labels::labels()/one_vs_all() (order of a returned Vec follows a HashSet) are dataset utilities, not estimators, and are not asserted".into(),
         ],
